@@ -547,6 +547,28 @@ func (i *interp) callSSA(caller *frame, callpos token.Pos, fn *ssa.Function, arg
 			unsupported("no code for function %s (needs an intrinsic)", name)
 		}
 	}
+	if fn.Parent() == nil && env == nil {
+		name := fn.String()
+		if fn.Origin() != nil {
+			name = fn.Origin().String()
+		}
+		if i.wantSummary(name, fn, args) {
+			return i.summarize(caller, callpos, fn, args)
+		}
+	}
+	return i.callSSABody2(caller, callpos, fn, args, env, fr)
+}
+
+// callSSABody runs fn without consulting stubs, intrinsics or summaries.
+func (i *interp) callSSABody(caller *frame, callpos token.Pos, fn *ssa.Function, args []value) value {
+	fr := &frame{i: i, caller: caller, fn: fn}
+	if caller != nil {
+		fr.cur = caller.cur
+	}
+	return i.callSSABody2(caller, callpos, fn, args, nil, fr)
+}
+
+func (i *interp) callSSABody2(caller *frame, callpos token.Pos, fn *ssa.Function, args []value, env []value, fr *frame) value {
 	if fn.TypeParams().Len() > 0 && len(fn.TypeArgs()) == 0 {
 		unsupported("uninstantiated generic %s", fn)
 	}
